@@ -14,7 +14,12 @@ their marginals on such inputs, and checks on the IMPLEMENTATION's matrices:
     FixedNoise, batch, multitask; also: never smaller than the posterior of the same data without holes), by fantasy models
     (get_fantasy_model with / without noise=, 1..3 steps, fast_pred_var on / off; each step's covariance is below its
     source's: c07_more_data_less_variance), and after short histories of set_train_data (inputs only / targets only /
-    both / resized) / load_state_dict / train-eval on a model that has already predicted."""
+    both / resized) / load_state_dict / train-eval on a model that has already predicted; F.d: eval -> predict -> train() ->
+    hyper-parameter change (setters / initialize / load_state_dict / optimizer steps / moved inducing points) -> eval -> predict on
+    models with cached factors (ExactGP, SGPR, KISS-GP, RFF, variational strategies), compared with a fresh model of the same state;
+  * part G: the noise floor (added diagonal >= the constraint's lower bound, = transform(raw); marginal variance >= latent variance;
+    marginal covariance PSD) for every noise model / likelihood class incl. HeteroskedasticNoise with noise_indices,
+    MultitaskGaussianLikelihood rank 0 / > 0, DirichletClassificationLikelihood, custom constraints."""
 import json
 import math
 import random
@@ -27,7 +32,7 @@ import gpytorch
 from gpytorch import settings as gs
 from harness.lib import common as C
 
-COQ_TARGETS = ["Models/C07_psd.vo", "Proofs/C07_psd.vo", "Proofs/C07_real.vo", "Proofs/C07_policy.vo"]
+COQ_TARGETS = ["Models/C07_psd.vo", "Proofs/C07_psd.vo", "Proofs/C07_real.vo", "Proofs/C07_policy.vo", "Proofs/C07_noise.vo"]
 ROUNDING_RULE = ("thresholds are max(fixed scale-relative tolerance, 8 * n * b) (eigenvalues) / max(.., 8 * b) (symmetry, monotonicity) "
                  "where b is an input-dependent bound on the float64 error of one matrix entry, computed and recorded per case: "
                  "kernels.kernel.sq_dist forms r^2 = |x|^2+|y|^2-2x.y on inputs/lengthscale centred on their mean, so "
@@ -1190,6 +1195,213 @@ def run_hist(out, case, jobs, owner):
                   what)
 
 
+# ---- F.d  cached factors: eval -> predict -> train() -> hyper-parameters change -> eval -> predict
+# Models whose kernels / strategies keep eval-mode caches (SGPR: K_ZZ and K_ZZ^{-1/2} of InducingPointKernel; KISS-GP:
+# interpolation / covar caches; RFF features; variational strategies: Cholesky factor of K_ZZ; plain ExactGP: the
+# prediction strategy).  After every cycle the covariance handed out must be a valid covariance FOR THE CURRENT
+# hyper-parameters: the part-B oracles, and equality with the covariance of a FRESH model (never evaluated before) that
+# received the final state through load_state_dict.  Changes are large (lengthscale x0.2 .. x5) so a stale cache shows.
+
+CACHE_KINDS = ["exact", "sgpr", "kissgp", "rff", "svgp-whitened", "svgp-unwhitened"]
+CACHE_OPS = ["setter", "initialize", "load_state_dict", "optimizer", "inducing"]
+FRESH_TOL = 1e-6
+
+
+def _cache_ops_for(kind):
+    return [o for o in CACHE_OPS if o != "inducing" or kind in ("sgpr", "svgp-whitened", "svgp-unwhitened")]
+
+
+def cache_cases(rng, tier):
+    cases = []
+    reps = 1 if tier == "quick" else 4
+    for kind in CACHE_KINDS:
+        for op in _cache_ops_for(kind):
+            for geom in ("random", "grid"):
+                for _ in range(reps):
+                    ops = [op] + [rng.choice(_cache_ops_for(kind)) for _ in range(rng.randint(0, 1))]
+                    cases.append(dict(kind="cache", model=kind, ops=ops, geom=geom, d=1 if kind == "kissgp" else rng.randint(1, 2),
+                                      base=rng.choice(["rbf", "matern25"]), n=rng.randint(3, 6), t=rng.randint(2, 4), m=rng.randint(2, 4),
+                                      grid=rng.randint(10, 16), rff=rng.randint(3, 6), pseed=rng.randint(0, 10 ** 9),
+                                      hyp=dict(ls=rng.uniform(0.4, 1.5), os=rng.uniform(0.3, 3.0), noise=rng.choice([0.01, 0.05, 0.3])),
+                                      factors=[dict(ls=rng.choice([0.2, 0.4, 2.5, 5.0]), os=rng.choice([0.25, 1.0, 4.0]),
+                                                    noise=rng.choice([0.5, 1.0, 3.0])) for _ in ops],
+                                      train_pass=rng.random() < 0.5, same_test=rng.random() < 0.5, lr=rng.choice([0.3, 1.0])))
+    return cases
+
+
+def cache_build(case, X, y, Z, hyp):
+    kind = case["model"]
+    mk = (lambda: K.RBFKernel()) if case["base"] == "rbf" else (lambda: K.MaternKernel(nu=2.5))
+    lik = gpytorch.likelihoods.GaussianLikelihood()
+    if kind.startswith("svgp"):
+        model = SVGP(Z.clone(), kind.split("-")[1], "chol", K.ScaleKernel(mk()), learn=True)
+        vr = random.Random(case["pseed"] + 3)
+        m = Z.shape[0]
+        vd = model.variational_strategy._variational_distribution
+        vd.variational_mean.data = T([vr.uniform(-1, 1) for _ in range(m)])
+        L = torch.tril(T([[vr.uniform(-0.5, 0.5) for _ in range(m)] for _ in range(m)]))
+        vd.chol_variational_covar.data = L - torch.diag(torch.diagonal(L)) + torch.diag(T([vr.uniform(0.3, 1.2) for _ in range(m)]))
+    else:
+        if kind == "exact":
+            kern = K.ScaleKernel(mk())
+        elif kind == "sgpr":
+            kern = K.InducingPointKernel(K.ScaleKernel(mk()), inducing_points=Z.clone(), likelihood=lik)
+        elif kind == "kissgp":
+            kern = K.ScaleKernel(K.GridInterpolationKernel(mk(), grid_size=case["grid"], num_dims=1, grid_bounds=[(-3.5, 3.5)]))
+        else:
+            torch.manual_seed(case["pseed"] % (2 ** 31))
+            kern = K.ScaleKernel(K.RFFKernel(num_samples=case["rff"], num_dims=case["d"]))
+        model = GP(X, y, lik, kern)
+    for _, mod in _cache_ls(model):
+        mod.lengthscale = hyp["ls"]
+    for _, mod in _cache_os(model):
+        mod.outputscale = hyp["os"]
+    lik.noise = hyp["noise"]
+    return model, lik
+
+
+def _cache_ls(model):
+    return [(nm, m) for nm, m in model.named_modules() if isinstance(m, K.Kernel) and getattr(m, "has_lengthscale", False)]
+
+
+def _cache_os(model):
+    return [(nm, m) for nm, m in model.named_modules() if isinstance(m, K.ScaleKernel)]
+
+
+def _cache_hyp(model, lik):
+    return dict(ls=_cache_ls(model)[0][1].lengthscale.detach().mean().item(), os=_cache_os(model)[0][1].outputscale.detach().mean().item(),
+                noise=lik.noise.detach().mean().item())
+
+
+def _cache_Z(model):
+    if hasattr(model, "variational_strategy"):
+        return model.variational_strategy.inducing_points
+    return getattr(model.covar_module, "inducing_points", None)
+
+
+def cache_apply(case, op, f, model, lik, X, y, prng):
+    """one hyper-parameter change, in train mode"""
+    kind = case["model"]
+    if op == "setter":
+        for _, m in _cache_ls(model):
+            m.lengthscale = m.lengthscale.detach() * f["ls"]
+        for _, m in _cache_os(model):
+            m.outputscale = m.outputscale.detach() * f["os"]
+        lik.noise = lik.noise.detach() * f["noise"]
+    elif op == "initialize":
+        kw = {nm + ".lengthscale": (m.lengthscale.detach() * f["ls"]).clone() for nm, m in _cache_ls(model)}
+        kw.update({nm + ".outputscale": (m.outputscale.detach() * f["os"]).clone() for nm, m in _cache_os(model)})
+        model.initialize(**kw)
+        lik.initialize(noise=(lik.noise.detach() * f["noise"]).clone())
+    elif op == "load_state_dict":
+        h = _cache_hyp(model, lik)
+        Zc = _cache_Z(model)
+        donor, dlik = cache_build(case, X, y, Zc.detach().clone() if Zc is not None else None,
+                                  dict(ls=h["ls"] * f["ls"], os=h["os"] * f["os"], noise=h["noise"] * f["noise"]))
+        model.load_state_dict(donor.state_dict())
+        lik.load_state_dict(dlik.state_dict())
+    elif op == "optimizer":
+        params = {id(p): p for p in list(model.parameters()) + list(lik.parameters())}
+        opt = torch.optim.Adam(list(params.values()), lr=case["lr"])
+        if kind.startswith("svgp"):
+            mll = gpytorch.mlls.VariationalELBO(lik, model, num_data=X.shape[0])
+        else:
+            mll = gpytorch.mlls.ExactMarginalLogLikelihood(lik, model)
+        with torch.enable_grad():
+            for _ in range(2):
+                opt.zero_grad()
+                loss = -mll(model(X), y)
+                loss.backward()
+                opt.step()
+    elif op == "inducing":
+        Zc = _cache_Z(model)
+        newZ = Zc.detach() + T([[prng.choice([-1, 1]) * prng.uniform(0.3, 1.0) for _ in range(Zc.shape[-1])] for _ in range(Zc.shape[-2])])
+        if kind == "kissgp":
+            newZ = newZ.clamp(-3.2, 3.2)
+        owner_mod = model.variational_strategy if hasattr(model, "variational_strategy") else model.covar_module
+        owner_mod.initialize(inducing_points=newZ)
+
+
+def run_cache(out, case, jobs, owner):
+    kind, n, t, d = case["model"], case["n"], case["t"], case["d"]
+    prng = random.Random(case["pseed"])
+    spec = dict(fam="gridinterp" if kind == "kissgp" else "rbf", d=d, lsmode="mid", hseed=0)
+    desc = dict(case)
+    out.case(dict(kind="cache", model=kind, ops=case["ops"], geom=case["geom"], n=n, t=t, base=case["base"], pseed=case["pseed"]), True,
+             label="cache:" + kind)
+    for o in case["ops"]:
+        out.count("cache-op=" + o)
+
+    def pts(k, geom):
+        p = gen_points(prng, spec, k, geom); prng.shuffle(p); return T(p)
+    X, Xs = pts(n, case["geom"]), pts(t, "random")
+    y = T([prng.uniform(-2, 2) for _ in range(n)])
+    Z = pts(case["m"], "random")
+    svgp = kind.startswith("svgp")
+
+    def predict(model, lik, Xq):
+        with torch.no_grad():
+            post = model(Xq)
+            return dict(cov=post.covariance_matrix.clone(), var=post.variance.clone(), sd=post.stddev.clone(),
+                        mcov=lik(post).covariance_matrix.clone())
+    step, op = 0, "predict"
+    outs = []
+    try:
+        with warnings.catch_warnings():
+            warnings.simplefilter("ignore")
+            model, lik = cache_build(case, X, y, Z, case["hyp"])
+            model.eval(); lik.eval()
+            predict(model, lik, Xs)                      # fills every eval-mode cache with the initial hyper-parameters
+            for step, (op, f) in enumerate(zip(case["ops"], case["factors"]), 1):
+                model.train(); lik.train()
+                cache_apply(case, op, f, model, lik, X, y, prng)
+                if case["train_pass"]:                   # one training-mode evaluation, as a training loop would do
+                    with torch.enable_grad():
+                        mll = (gpytorch.mlls.VariationalELBO(lik, model, num_data=n) if svgp
+                               else gpytorch.mlls.ExactMarginalLogLikelihood(lik, model))
+                        (-mll(model(X), y)).backward()
+                        for p in list(model.parameters()) + list(lik.parameters()):
+                            p.grad = None
+                model.eval(); lik.eval()
+                if not case["same_test"]:
+                    Xs = pts(t, "random")
+                got = predict(model, lik, Xs)
+                # the oracle: a model that has never been evaluated, holding the same state
+                Zc = _cache_Z(model)
+                fresh, flik = cache_build(case, X, y, Zc.detach().clone() if Zc is not None else None, case["hyp"])
+                fresh.load_state_dict(model.state_dict()); flik.load_state_dict(lik.state_dict())
+                fresh.eval(); flik.eval()
+                want = predict(fresh, flik, Xs)
+                with torch.no_grad():
+                    # SGPR's predictive prior is the base kernel's K** (SGPRPredictionStrategy.exact_prediction)
+                    Kss = (fresh.covar_module.base_kernel if kind == "sgpr" else fresh.covar_module)(Xs).to_dense()
+                outs.append(dict(step=step, op=op, got=got, want=want, Kss=Kss, hyp=_cache_hyp(model, lik), Xs=Xs.tolist()))
+    except Exception as e:
+        out.fail("cache-exception:%s:%s:%s" % (kind, op, type(e).__name__), "history predict, %s raised %r at step %d (%s)"
+                 % (", ".join(case["ops"]), e, step, op), desc)
+        return
+    for o in outs:
+        got, want, Kss = o["got"], o["want"], o["Kss"]
+        sc = max(scale_of(Kss), scale_of(want["cov"]))
+        key = "cache:%s:%s" % (kind, o["op"])
+        dd = dict(desc, step=o["step"], op=o["op"], hyp_now=o["hyp"], Xs=o["Xs"])
+        what = "%s posterior covariance after eval, predict, train(), %s, eval (step %d of %s)" % (kind, o["op"], o["step"], ", ".join(case["ops"]))
+        if svgp:       # q(f) may exceed the prior (S > I): PSD + variance floor only
+            ok = check_matrix(out, key + ":cov", what, dd, got["cov"], jobs, owner, ref=sc)
+            mv = gs.min_variance.value(got["var"].dtype)
+            if (got["var"] < mv).any() or not torch.isfinite(got["sd"]).all():
+                out.fail(key + ":variance-floor", what + ": variance below settings.min_variance", dd, impl=got["var"].tolist(), model=mv)
+        else:
+            ok = psd_suite(out, key, dd, got["cov"], Kss, got["var"], got["sd"], jobs, owner, EIG_TOL, True, sc, 0.0, SYM_TOL, what)
+        check_matrix(out, key + ":marginal", "likelihood(" + what + ")", dd, got["mcov"], jobs, owner, ref=sc)
+        for nm in ("cov", "mcov"):
+            err = (got[nm] - want[nm]).abs().max().item()
+            if not err <= FRESH_TOL * sc:
+                out.fail(key + ":vs-fresh", "%s differs from the covariance of a fresh model with the same state by %.3e (scale %.3e): "
+                         "a cache of the previous hyper-parameters survived" % (what, err, sc), dd, impl=got[nm].tolist(), model=want[nm].tolist())
+                break
+
+
 # --------------------------------------------------------------------------- part D: variance clamp
 
 CLAMP_DIAGS = [
@@ -1304,6 +1516,420 @@ def fixed_impl(case):
     return got.tolist(), added.tolist(), mn
 
 
+# --------------------------------------------------------------------------- part G: noise floor of EVERY noise model
+# "the noise a likelihood adds is at least its constraint's lower bound" for every noise model / likelihood class of
+# gpytorch.likelihoods: HomoskedasticNoise (GaussianLikelihood, batch shape, GaussianLikelihoodWithMissingObs),
+# MultitaskHomoskedasticNoise, FixedGaussianNoise (+ learned second noise), HeteroskedasticNoise without / with
+# noise_indices over single- and multi-output noise models whose mean is negative somewhere, MultitaskGaussianLikelihood
+# (rank 0 / rank > 0, global / task noise, interleaved or not), DirichletClassificationLikelihood.  Custom constraints
+# (GreaterThan, Interval, Positive, default), raw values -30..30 (and +-800).  Per case, on the implementation:
+#   (a) diag(likelihood(dist).covariance - dist.covariance) >= lb, = the value computed here from the raw numbers with
+#       math.log1p / exp (softplus(raw)+lb, lo+(hi-lo)*sigmoid(raw)); the same for noise_covar(...) evaluated directly and
+#       for the conditional variance of likelihood(f);  the added operator is diagonal (rank 0) / added - lb*I is PSD (rank>0)
+#   (b) marginal variance >= latent variance + lb        (c) marginal covariance symmetric PSD (float + exact certificate)
+
+NF_MODELS = ["homoskedastic", "homoskedastic-batch", "missingobs", "multitask-homoskedastic", "fixed", "fixed+learned",
+             "heteroskedastic", "heteroskedastic-exactgp", "heteroskedastic-posterior", "multitask", "dirichlet"]
+NF_CONS = ["default", "gt", "gt", "interval", "positive"]
+
+
+def _nf_cons_spec(rng, kind):
+    if kind == "gt":
+        return dict(kind="gt", lb=rng.choice([1e-6, 1e-3, 0.05, 0.5]))
+    if kind == "interval":
+        lo = rng.choice([1e-5, 0.01, 0.05, 0.3]); return dict(kind="interval", lo=lo, hi=lo + rng.choice([0.5, 2.0, 40.0]))
+    return dict(kind=kind)
+
+
+def _nf_cons(cs):
+    """(constraint object or None, lower bound, upper bound)"""
+    Cn = gpytorch.constraints
+    if cs["kind"] == "default":
+        return None, 1e-4, math.inf
+    if cs["kind"] == "gt":
+        return Cn.GreaterThan(cs["lb"]), cs["lb"], math.inf
+    if cs["kind"] == "interval":
+        return Cn.Interval(cs["lo"], cs["hi"]), cs["lo"], cs["hi"]
+    return Cn.Positive(), 0.0, math.inf
+
+
+def _softplus(x):
+    return x + math.log1p(math.exp(-x)) if x > 0 else math.log1p(math.exp(x))
+
+
+def _nf_value(cs, raw):
+    """the documented transform of the constraint, from the raw number (plain math, independent of gpytorch.constraints)"""
+    if cs["kind"] == "interval":
+        s = 1.0 / (1.0 + math.exp(-raw)) if raw > -700 else 0.0
+        return cs["lo"] + (cs["hi"] - cs["lo"]) * s
+    lb = {"default": 1e-4, "positive": 0.0}.get(cs["kind"], cs.get("lb"))
+    return lb + _softplus(raw)
+
+
+def _nf_raw(rng):
+    return rng.choice([rng.uniform(-30, 30), rng.uniform(-30, 0), rng.uniform(-6, 3), rng.choice([-800.0, -40.0, -20.0, -5.0, 0.0, 19.5, 20.5, 50.0])])
+
+
+def nf_cases(rng, tier):
+    cases = []
+    reps = 2 if tier == "quick" else 8
+    for model in NF_MODELS:
+        for ck in NF_CONS:
+            for var in range(3 if model in ("heteroskedastic", "multitask") else 2 if model.startswith("hetero") else 1):
+                for _ in range(reps):
+                    c = dict(kind="noisefloor", model=model, cons=_nf_cons_spec(rng, ck), n=rng.randint(2, 4), pseed=rng.randint(0, 10 ** 9),
+                             raws=[_nf_raw(rng) for _ in range(8)], geom=rng.choice(["random", "dup", "grid"]))
+                    if ck == "positive":    # lower bound 0: keep softplus(raw) > 0 in float64 (a zero scale is refused by torch's Normal)
+                        c["raws"] = [max(v, -30.0) for v in c["raws"]]
+                    if model.startswith("heteroskedastic"):
+                        c["outputs"] = [1, 2, 3][var] if model == "heteroskedastic" else rng.choice([1, 2])
+                        c["index"] = None if c["outputs"] == 1 else rng.choice(([None] if model != "heteroskedastic-posterior" else [])
+                                                                               + list(range(-1, c["outputs"])))
+                        c["callform"] = rng.choice(["tensor", "list"])
+                    if model == "multitask":
+                        c["rank"] = [0, 1, 2][var]; c["tasks"] = rng.randint(2, 3)
+                        c["has"] = rng.choice(["global+task", "global+task", "task", "global"])
+                        c["interleaved"] = rng.choice([True, False])
+                    if model == "dirichlet":
+                        c["learn"] = rng.choice([True, False]); c["alpha_eps"] = rng.choice([0.01, 1.0, 1e3, 1e7])
+                    if model in ("fixed", "fixed+learned"):
+                        c["fixed"] = [rng.choice([0.0, 1e-9, -0.5, 1e-6 * (1 - 2 ** -30), rng.uniform(1e-3, 1.0)]) for _ in range(c["n"])]
+                    cases.append(c)
+    return cases
+
+
+class _LevelModel(gpytorch.models.GP):
+    """deterministic raw noise levels: `outputs` columns, level[i, j] = a_j + b_j * sin(c_j * x_i0 + p_j) (negative in places)"""
+
+    def __init__(self, coef):
+        super().__init__()
+        self.coef = coef
+
+    def levels(self, x):
+        x0 = x[..., 0]
+        return torch.stack([a + b * torch.sin(c * x0 + p) for a, b, c, p in self.coef], -1)
+
+    def forward(self, x):
+        lv = self.levels(x)
+        if lv.shape[-1] == 1:
+            return gpytorch.distributions.MultivariateNormal(lv[..., 0], 1e-3 * torch.eye(lv.shape[-2]))
+        return gpytorch.distributions.MultitaskMultivariateNormal(lv, 1e-3 * torch.eye(lv.shape[-2] * lv.shape[-1]))
+
+
+class _BatchGP(gpytorch.models.ExactGP):
+    """independent multi-output exact GP (batch of `o` GPs -> MultitaskMultivariateNormal), o = 1: plain MultivariateNormal"""
+
+    def __init__(self, x, y, lik, o, consts):
+        super().__init__(x, y, lik)
+        self.o = o
+        bs = torch.Size([o]) if o > 1 else torch.Size()
+        self.mean_module = gpytorch.means.ConstantMean(batch_shape=bs)
+        self.mean_module.constant.data = T(consts) if o > 1 else T(consts[0])
+        self.covar_module = K.ScaleKernel(K.RBFKernel(batch_shape=bs), batch_shape=bs)
+
+    def forward(self, x):
+        mvn = gpytorch.distributions.MultivariateNormal(self.mean_module(x), self.covar_module(x))
+        return mvn if self.o == 1 else gpytorch.distributions.MultitaskMultivariateNormal.from_batch_mvn(mvn)
+
+
+def _nf_latent(prng, spec, n, geom):
+    X = T(gen_points(prng, spec, n, geom))
+    kern = build_kernel(spec)
+    kern.eval()
+    with torch.no_grad():
+        Kxx = kern(X).to_dense()
+    return X, kern, (Kxx + Kxx.T) / 2
+
+
+def nf_build(case):
+    """-> dict(lik, dist, K (n x n or B x n x n latent covariance), args, kwargs, expected (tensor, same leading shape as the
+    diagonal of K; None if not diagonal), lb, ub, diagonal(bool), full_expected (rank > 0), direct (callable or None))"""
+    L = gpytorch.likelihoods
+    from linear_operator.operators import DenseLinearOperator as DLO
+
+    def MVN(m, c):     # lazy covariance: singular (duplicated-input) latent covariances are legitimate here
+        return gpytorch.distributions.MultivariateNormal(m, DLO(c))
+    model, cs, n = case["model"], case["cons"], case["n"]
+    prng = random.Random(case["pseed"])
+    cons, lb, ub = _nf_cons(cs)
+    raws = case["raws"]
+    spec = gen_spec(prng, prng.choice(["rbf", "matern25", "scale_rbf", "rbf+linear"]), "mid")
+    X, kern, Kxx = _nf_latent(prng, spec, n, case["geom"])
+    mean = T([prng.uniform(-1, 1) for _ in range(n)])
+    r = dict(args=(), kwargs={}, lb=lb, ub=ub, diagonal=True, full_expected=None, direct=None, X=X)
+    if model in ("homoskedastic", "missingobs"):
+        lik = (L.GaussianLikelihood if model == "homoskedastic" else L.GaussianLikelihoodWithMissingObs)(noise_constraint=cons)
+        lik.raw_noise.data.fill_(raws[0])
+        r.update(lik=lik, dist=MVN(mean, Kxx), K=Kxx, expected=T([_nf_value(cs, raws[0])] * n),
+                 direct=lambda: lik.noise_covar(shape=torch.Size([n])))
+    elif model == "homoskedastic-batch":
+        lik = L.GaussianLikelihood(noise_constraint=cons, batch_shape=torch.Size([2]))
+        lik.raw_noise.data = T([[raws[0]], [raws[1]]])
+        Kb = torch.stack([Kxx, 0.5 * Kxx + 0.1 * torch.eye(n)])
+        r.update(lik=lik, dist=MVN(torch.stack([mean, -mean]), Kb), K=Kb,
+                 expected=T([[_nf_value(cs, raws[0])] * n, [_nf_value(cs, raws[1])] * n]),
+                 direct=lambda: lik.noise_covar(shape=torch.Size([2, n])))
+    elif model == "multitask-homoskedastic":
+        # the noise module on its own (no likelihood class in gpytorch.likelihoods wires it in): n x t diagonal
+        t = 2
+        nm = L.noise_models.MultitaskHomoskedasticNoise(num_tasks=t, noise_constraint=cons)
+        nm.raw_noise.data = T(raws[:t])
+        r.update(lik=None, dist=None, K=None, expected=T([[_nf_value(cs, raws[j])] * n for j in range(t)]),
+                 direct=lambda: nm(shape=torch.Size([n])))
+    elif model in ("fixed", "fixed+learned"):
+        mn = gs.min_fixed_noise.value(torch.float64)
+        fx = T(case["fixed"])
+        lik = L.FixedNoiseGaussianLikelihood(fx.clone(), learn_additional_noise=(model == "fixed+learned"), noise_constraint=cons)
+        exp = torch.clamp(fx, min=mn)
+        r["lb"] = mn
+        if model == "fixed+learned":
+            lik.second_noise_covar.raw_noise.data.fill_(raws[0])
+            exp = exp + _nf_value(cs, raws[0]); r["lb"] = mn + lb; r["ub"] = math.inf
+        else:
+            r["ub"] = math.inf
+        r.update(lik=lik, dist=MVN(mean, Kxx), K=Kxx, expected=exp, direct=None)
+    elif model in ("heteroskedastic", "heteroskedastic-exactgp", "heteroskedastic-posterior"):
+        o, idx = case["outputs"], case["index"]
+        if model == "heteroskedastic-exactgp":
+            # a trained exact GP (o = 1: MultivariateNormal, o = 2: batch-independent MultitaskMultivariateNormal) as noise model;
+            # its targets (raw noise levels) are negative / below the bound
+            m = 4
+            Xn = T(gen_points(prng, spec, m, "random"))
+            Yn = T([[raws[(i + 3 * j) % 8] for j in range(o)] for i in range(m)])
+            nl = L.GaussianLikelihood() if o == 1 else L.MultitaskGaussianLikelihood(num_tasks=o)
+            nm = _BatchGP(Xn, Yn[:, 0] if o == 1 else Yn, nl, o, [min(raws[:3])] * o)
+        else:
+            coef = [(raws[j], abs(raws[j + 3]) * 0.5 + 1.0, prng.uniform(0.5, 3.0), prng.uniform(0, 6.0)) for j in range(o)]
+            nm = _LevelModel(coef)
+        hn = L.HeteroskedasticNoise(nm, noise_indices=idx, noise_constraint=cons)
+        lik = L.gaussian_likelihood._GaussianLikelihoodBase(noise_covar=hn)
+        nm.eval()
+        with torch.no_grad():
+            lv = nm(X).mean
+        lv = lv if idx is None else lv[..., idx]
+        lv = lv.reshape(n, -1)
+        nm.train()
+        exp = T([[_nf_value(cs, v) for v in row] for row in lv.tolist()])
+        r["levels"] = lv.tolist()
+        args = (X,) if case["callform"] == "tensor" else ([X],)
+        if idx is None and o > 1:
+            # every output's level at once: a batch of n diagonal t x t operators (no likelihood class consumes it directly)
+            r.update(lik=None, dist=None, K=None, expected=exp, direct=lambda: hn(*args, shape=torch.Size([n])))
+        else:
+            r.update(lik=lik, dist=MVN(mean, Kxx), K=Kxx, expected=exp[:, 0], args=args, direct=lambda: hn(*args, shape=torch.Size([n])))
+        r["kern"], r["spec"], r["mean"] = kern, spec, mean
+    elif model == "multitask":
+        t, rank, has = case["tasks"], min(case["rank"], case["tasks"]), case["has"]
+        hg, ht = "global" in has, "task" in has
+        lik = L.MultitaskGaussianLikelihood(num_tasks=t, rank=rank, noise_constraint=cons, has_global_noise=hg, has_task_noise=ht)
+        g = 0.0
+        if hg:
+            lik.raw_noise.data.fill_(raws[0]); g = _nf_value(cs, raws[0])
+        tn = [0.0] * t
+        F = None
+        if ht and rank == 0:
+            lik.raw_task_noises.data = T(raws[1:1 + t]); tn = [_nf_value(cs, v) for v in raws[1:1 + t]]
+        elif ht:
+            F = T([[prng.uniform(-1.5, 1.5) for _ in range(rank)] for _ in range(t)])
+            lik.task_noise_covar_factor.data = F.clone()
+        il = case["interleaved"]
+        kt = build_kernel(dict(gen_spec(prng, "index", "mid"), tasks=t, rank=1))
+        with torch.no_grad():
+            B = kt.covar_matrix.to_dense()
+        B = (B + B.T) / 2
+        Kmt = torch.kron(Kxx, B) if il else torch.kron(B, Kxx)
+        dist = gpytorch.distributions.MultitaskMultivariateNormal(T([[prng.uniform(-1, 1) for _ in range(t)] for _ in range(n)]), DLO(Kmt),
+                                                                  interleaved=il)
+        D = torch.diag(T(tn)) + g * torch.eye(t) if (F is None) else F @ F.T + g * torch.eye(t)
+        full = torch.kron(torch.eye(n), D) if il else torch.kron(D, torch.eye(n))
+        # floor: the global noise and each diagonal task noise are >= lb each
+        floor = (lb if hg else 0.0) + (lb if (ht and rank == 0) else 0.0)
+        r.update(lik=lik, dist=dist, K=Kmt, expected=torch.diagonal(full).clone(), full_expected=full, diagonal=(F is None), lb=floor,
+                 ub=math.inf, cond_expected=torch.diagonal(D).repeat(n))     # likelihood(f): n x t, row-major
+    elif model == "dirichlet":
+        # transformed classification noise log(1/alpha + 1), stored through FixedGaussianNoise (floor: min_fixed_noise of its dtype)
+        ncls = 2
+        tg = torch.tensor([i % ncls for i in range(n)])
+        dt = torch.float64
+        lik = L.DirichletClassificationLikelihood(tg, alpha_epsilon=case["alpha_eps"], learn_additional_noise=case["learn"], dtype=dt,
+                                                   noise_constraint=cons)
+        mn = gs.min_fixed_noise.value(dt)
+        al = torch.full((ncls, n), case["alpha_eps"], dtype=dt)
+        al[tg, torch.arange(n)] += 1.0
+        exp = torch.clamp(torch.log1p(1.0 / al), min=mn)
+        r["lb"] = mn; r["ub"] = math.inf
+        if case["learn"]:
+            lik.second_noise_covar.raw_noise.data = T([[raws[0]], [raws[1]]])
+            exp = exp + T([[_nf_value(cs, raws[0])], [_nf_value(cs, raws[1])]]); r["lb"] = mn + lb
+        Kb = torch.stack([Kxx, 0.5 * Kxx + 0.1 * torch.eye(n)])
+        r.update(lik=lik, dist=MVN(torch.stack([mean, -mean]), Kb), K=Kb, expected=exp)
+    else:
+        raise ValueError(model)
+    return r
+
+
+def _nf_variant(case):
+    m = case["model"]
+    if m.startswith("heteroskedastic"):
+        return "%s:%s" % (m, "all-outputs" if (case["index"] is None and case["outputs"] > 1) else
+                          "no-indices" if case["index"] is None else "noise_indices")
+    if m == "multitask":
+        return "multitask:%s:%s" % ("rank0" if case["rank"] == 0 else "rank>0", case["has"])
+    if m == "dirichlet":
+        return "dirichlet" + ("+learned" if case["learn"] else "")
+    return m
+
+
+def run_nf(out, case, jobs, owner):
+    desc = dict(case)
+    key = "noise:" + _nf_variant(case)
+    out.case(dict(kind="noisefloor", variant=_nf_variant(case), cons=case["cons"], n=case["n"], pseed=case["pseed"], raws=case["raws"][:3]),
+             True, label=key)
+    out.count("noisefloor-constraint=" + case["cons"]["kind"])
+    try:
+        with torch.no_grad(), warnings.catch_warnings():
+            warnings.simplefilter("ignore")
+            r = nf_build(case)
+            lik, dist, Kl, exp, lb, ub = r["lik"], r["dist"], r["K"], r["expected"], r["lb"], r["ub"]
+            direct = r["direct"]().to_dense() if r["direct"] is not None else None
+            if lik is not None:
+                if hasattr(lik, "eval"):
+                    lik.eval()
+                marg = lik(dist, *r["args"], **r["kwargs"])
+                mcov, mvar = marg.covariance_matrix, marg.variance
+                lvar = dist.variance
+                try:
+                    cvar = lik(dist.mean.clone(), *r["args"], **r["kwargs"]).variance
+                except Exception as e:     # judged below, after the marginal (a NaN scale is the symptom of a negative noise)
+                    cvar, cexc = None, e
+    except Exception as e:
+        out.fail(key + ":exception:" + type(e).__name__, "noise model / likelihood raised %r" % e, desc)
+        return
+    desc["lower_bound"] = lb
+    if r.get("levels") is not None:
+        desc["raw_levels"] = r["levels"]
+
+    def floor_and_value(name, got, want, sc, what):
+        """got, want: tensors of the same shape; sc: magnitude of the operands got was computed from"""
+        tolabs = 1e-13 * max(sc, 1e-300)
+        if not torch.isfinite(got).all():
+            out.fail(key + ":" + name + ":nonfinite", what + " is not finite", desc, impl=got.tolist()); return False
+        if (got < lb * (1 - 1e-9) - tolabs).any():
+            out.fail(key + ":" + name + ":lower-bound", "%s is below the lower bound %g of the noise constraint: min %.6e"
+                     % (what, lb, got.min().item()), desc, impl=got.tolist(), model=dict(lower_bound=lb, expected=want.tolist()))
+            return False
+        if (got > ub * (1 + 1e-9) + tolabs).any():
+            out.fail(key + ":" + name + ":upper-bound", "%s is above the upper bound %g of the noise constraint" % (what, ub), desc,
+                     impl=got.tolist(), model=dict(upper_bound=ub, expected=want.tolist()))
+            return False
+        if ((got - want).abs() > 1e-8 * want.abs() + tolabs).any():
+            out.fail(key + ":" + name + ":value", "%s differs from transform(raw) computed from the raw numbers" % what, desc,
+                     impl=got.tolist(), model=want.tolist())
+            return False
+        return True
+
+    if direct is not None:
+        dd = torch.diagonal(direct, dim1=-1, dim2=-2)
+        want = exp if exp.dim() == dd.dim() else exp.reshape(dd.shape)
+        ok = floor_and_value("direct", dd, want, scale_of(dd), "the diagonal of noise_covar(...) evaluated directly")
+        off = (direct - torch.diag_embed(dd)).abs().max().item()
+        if ok and off > 0:
+            out.fail(key + ":direct:offdiag", "noise_covar(...) has non-zero off-diagonal entries (max %.3e)" % off, desc, impl=direct.tolist())
+    if lik is None:
+        return
+    B = 1 if Kl.dim() == 2 else Kl.shape[0]
+    for b in range(B):
+        sel = (lambda a: a[b]) if Kl.dim() == 3 else (lambda a: a)
+        Kb, mc, mv, lv, eb = sel(Kl), sel(mcov), sel(mvar).reshape(-1), sel(lvar).reshape(-1), sel(exp).reshape(-1)
+        sc = scale_of(mc)
+        added = mc - Kb
+        ad = torch.diagonal(added)
+        d = dict(desc, batch_element=b) if B > 1 else desc
+        ok = floor_and_value("added", ad, eb, sc, "diag(likelihood(dist).covariance - dist.covariance)")
+        if cvar is None:
+            if ok:
+                out.fail(key + ":conditional-variance:exception:" + type(cexc).__name__, "likelihood(f) raised %r" % cexc, d)
+            ok = False
+        else:
+            cv = sel(cvar).reshape(-1)
+            ok = floor_and_value("conditional-variance", cv, r.get("cond_expected", eb), scale_of(cv),
+                                 "the variance of likelihood(f) (conditional p(y|f))") and ok
+        if not ok:
+            continue
+        if r["diagonal"]:
+            off = (added - torch.diag(ad)).abs().max().item()
+            if off > 1e-13 * sc:
+                out.fail(key + ":added:offdiag", "the added noise covariance is not diagonal (max off-diagonal %.3e)" % off, d,
+                         impl=added.tolist())
+                continue
+        else:
+            fe = r["full_expected"]
+            if (added - fe).abs().max().item() > 1e-8 * scale_of(fe) + 1e-13 * sc:
+                out.fail(key + ":added:value", "the added noise covariance differs from I (x) (F F^T + noise I)", d, impl=added.tolist(),
+                         model=fe.tolist())
+                continue
+            check_matrix(out, key + ":added-minus-floor", "added noise covariance minus lower bound * I", d, added - lb * torch.eye(added.shape[-1]),
+                         jobs, owner, cert=False, ref=sc)
+        mvfloor = gs.min_variance.value(mv.dtype)
+        if (mv < lv + lb * (1 - 1e-9) - 1e-13 * sc - mvfloor).any():
+            out.fail(key + ":marginal-variance", "marginal variance is below latent variance + noise lower bound %g" % lb, d,
+                     impl=dict(marginal=mv.tolist(), latent=lv.tolist()), model=lb)
+            continue
+        check_matrix(out, key + ":marginal", "likelihood(dist) covariance (K + noise)", d, mc, jobs, owner, ref=sc)
+    if case["model"] == "heteroskedastic-posterior":
+        run_nf_posterior(out, case, r, key, desc, jobs, owner)
+
+
+def run_nf_posterior(out, case, r, key, desc, jobs, owner):
+    """an exact GP whose likelihood is _GaussianLikelihoodBase(HeteroskedasticNoise(...)): posterior at fresh points and its
+    marginal; reference: dense K** - K*x (Kxx + diag(transform(level(X))))^-1 Kx* from the raw levels"""
+    prng = random.Random(case["pseed"] + 5)
+    X, spec, lik, cs = r["X"], r["spec"], r["lik"], case["cons"]
+    n, t = X.shape[0], prng.randint(1, 3)
+    Xs = T(gen_points(prng, spec, t, "random"))
+    y = T([prng.uniform(-2, 2) for _ in range(n)])
+    nm = lik.noise_covar.noise_model
+    idx = case["index"]
+    try:
+        with torch.no_grad(), warnings.catch_warnings():
+            warnings.simplefilter("ignore")
+            model = GP(X, y, lik, build_kernel(spec))
+            model.eval(); lik.eval()
+            post = model(Xs)
+            cov, var, sd = post.covariance_matrix, post.variance, post.stddev
+            marg = lik(post, Xs)
+            mcov, mvar = marg.covariance_matrix, marg.variance
+            k0 = build_kernel(spec)
+            Kss, Kxs, Kxx = k0(Xs).to_dense(), k0(X, Xs).to_dense(), k0(X).to_dense()
+            lx, ls = nm.levels(X), nm.levels(Xs)
+            lx, ls = (lx[..., 0], ls[..., 0]) if idx is None else (lx[..., idx], ls[..., idx])
+            nx = T([_nf_value(cs, v) for v in lx.tolist()]); nsx = T([_nf_value(cs, v) for v in ls.tolist()])
+            A = Kxx + torch.diag(nx)
+            ref = Kss - Kxs.T @ torch.linalg.solve(A, Kxs)
+            cond = torch.linalg.cond(A).item()
+            amp = (1.0 + torch.linalg.solve(A, Kxs).abs().sum(0).max().item()) ** 2
+            rel, det = entry_rounding(k0, torch.cat([X, Xs]))
+    except Exception as e:
+        out.fail(key + ":posterior:exception:" + type(e).__name__, "exact GP with a heteroskedastic likelihood raised %r" % e, desc)
+        return
+    sc = scale_of(Kss)
+    rb = rel * sc * amp
+    d = dict(desc, t=t, rounding=dict(entry_bound=rb, amplification=amp, cond=cond))
+    out.case(dict(kind="noisefloor-posterior", variant=_nf_variant(case), n=n, t=t, pseed=case["pseed"]), True, label=key + ":posterior")
+    ok = psd_suite(out, key + ":posterior", d, cov, Kss, var, sd, jobs, owner, EIG_TOL, True, sc, rb, SYM_TOL,
+                   "posterior covariance of an exact GP with heteroskedastic noise")
+    if ok and (cov - ref).abs().max().item() > max(1e-7 * sc * max(1.0, cond * 1e-4), KB * rb):
+        out.fail(key + ":posterior:reference", "posterior covariance differs from K** - K*x (Kxx + diag(transform(level)))^-1 Kx*", d,
+                 impl=cov.tolist(), model=ref.tolist())
+    lb = r["lb"]
+    if (mvar - var < lb * (1 - 1e-9) - 1e-13 * max(sc, scale_of(mcov)) - gs.min_variance.value(var.dtype)).any() or \
+            ((torch.diagonal(mcov) - torch.diagonal(cov) - nsx).abs() > 1e-8 * nsx + 1e-13 * scale_of(mcov)).any():
+        out.fail(key + ":posterior:marginal-variance", "the predictive marginal adds less than the noise lower bound %g / not transform(level(x*))" % lb,
+                 d, impl=(torch.diagonal(mcov) - torch.diagonal(cov)).tolist(), model=nsx.tolist())
+    check_matrix(out, key + ":posterior:marginal", "likelihood(posterior, x*) covariance with heteroskedastic noise", d, mcov, jobs, owner,
+                 ref=sc, rb=rb)
+
+
 # --------------------------------------------------------------------------- run
 
 def run(out, ctx):
@@ -1323,7 +1949,20 @@ def run(out, ctx):
                 "FixedNoise+learned, 1..3 get_fantasy_model steps of 1..2 points, fantasy noise 0.01x..1000x the training noise, "
                 "fast_pred_var on/off; every step PSD, below the prior and below its source), and histories predict -> 1..3 of "
                 "{set_train_data(inputs) / (targets) / (both) / (both, resized, strict=False), load_state_dict of another "
-                "parameter set, train-eval, predict} -> predict under default / eager / fast_pred_var. "
+                "parameter set, train-eval, predict} -> predict under default / eager / fast_pred_var; "
+                "F.d: models with eval-mode caches (plain ExactGP, SGPR = InducingPointKernel, KISS-GP = GridInterpolationKernel, "
+                "RFFKernel, whitened / unwhitened variational strategies) through eval -> predict -> 1..2 x [train() -> "
+                "hyper-parameter change by property setters / initialize() / load_state_dict of a differently parameterised "
+                "copy / 2 Adam steps on the mll / moved inducing points (lengthscale x0.2..x5, outputscale x0.25..x4, noise "
+                "x0.5..x3), optionally one training-mode mll forward+backward -> eval -> predict]: part-B oracles and equality "
+                "(1e-6*scale) with a FRESH model that received the final state; "
+                "part G: noise floor of every noise model / likelihood class (Homoskedastic, batch, MissingObs, "
+                "MultitaskHomoskedastic, Fixed, Fixed+learned, Heteroskedastic without / with noise_indices over 1..3-output "
+                "deterministic or exact-GP noise models with negative levels, an exact GP with heteroskedastic likelihood, "
+                "MultitaskGaussianLikelihood rank 0 / >0 x global / task noise x interleaved, DirichletClassification) x "
+                "constraint {default, GreaterThan, Interval, Positive} x raw in -30..30 and +-800: added diagonal >= lower bound "
+                "and = transform(raw) from plain math, noise_covar evaluated directly, conditional variance, marginal variance "
+                ">= latent + bound, marginal covariance PSD. "
                 "non-trivial = matrix has a non-zero off-diagonal / n_train >= 2. " % len(FAMILIES)) + ROUNDING_RULE
     out.extra["tolerances"] = {"eig": "lambda_min >= -max(%g*scale, 8*n*b)" % EIG_TOL, "symmetry": "max(%g*scale, 8*b)" % SYM_TOL,
                                 "b": "per-case entry rounding bound (see rule); recorded as entry_rounding_bound / rounding in every case",
@@ -1344,6 +1983,12 @@ def run(out, ctx):
         run_fant(out, case, jobs, owner)
     for case in hist_cases(rng_f, tier):
         run_hist(out, case, jobs, owner)
+    # F.d and part G draw from a third stream (the cases of the older parts stay the same)
+    rng_g = random.Random(seed * 6151 + 29)
+    for case in cache_cases(rng_g, tier):
+        run_cache(out, case, jobs, owner)
+    for case in nf_cases(rng_g, tier):
+        run_nf(out, case, jobs, owner)
     # clamps and noise floors: implementation now, model answers with the certificate batch
     for case in clamp_cases(rng, tier):
         try:
@@ -1458,6 +2103,10 @@ def replay(path):
         run_fant(out, case, jobs, owner)
     elif kind == "history":
         run_hist(out, case, jobs, owner)
+    elif kind == "cache":
+        run_cache(out, case, jobs, owner)
+    elif kind == "noisefloor":
+        run_nf(out, case, jobs, owner)
     elif kind == "clamp":
         used, var, sd, mvv = clamp_impl(case)
         print("diag", used, "variance", var, "min_variance", mvv)
